@@ -20,6 +20,7 @@ KINDS = ['combined', 'insertions', 'deletions']
 INCLUDES = ['all', 'combined', 'insertions', 'deletions', '', 'both', 'ALL', 'combined,insertions', 'none']
 
 MALFORMED = [
+    '<p>x <img srcset="a.png 1x, "> y</p>', '<p><img srcset="a.png 1x,, b.png 2x"></p>', '<img srcset=" "><img data-srcset=","><p>z</p>',
     '<p>Hello</p><title>Old body title</title>', '<p>Hello</p><title>New body title</title>', '<html><head></head><body><h1>x</h1><title>Body title three</title><p>y</p></body></html>',
     '<html><head><template><title>in template</title></template></head><body>hi</body></html>', '<body><template><title>T</title></template><p>x</p><title>late title</title></body>',
     '<html><head></head><body><svg><title>Icon</title><circle r="1"/></svg>hi</body></html>', '<html><head><title>Real</title></head><body><math><title>m</title></math><svg><title>Logo</title></svg>x</body></html>',
